@@ -66,6 +66,11 @@ class ScaleSpec(SeqSpec):
                 combos += [(n, o, d, k, True) for n in (17, 260, 5000, 20000) for o in ("asc", "rand") for d in ("top", "rand", "everyother") for k in (0, 9)]
             for n, o, d, k, rf in combos:
                 add({"kind": "tree-gc", "n": n, "order": o, "drain": d, "keep": k, "refill": rf, "seed": rng.randrange(1 << 30)})
+        if "deque-gc" in self.kinds:
+            add({"kind": "deque-gc", "style": "offset-shrink", "steps": 0, "drain": False, "seed": 1})
+            for i in range(12 if big else 5):
+                add({"kind": "deque-gc", "style": "random", "steps": rng.choice([40, 200, 1500]), "drain": rng.random() < 0.5, "seed": rng.randrange(1 << 30)})
+                add({"kind": "deque-gc", "style": "offset-shrink", "steps": rng.choice([30, 300]), "drain": True, "seed": rng.randrange(1 << 30)})
         if "mapstream-close-busy" in self.kinds:
             for who in ("f", "src"):
                 for p in (1, 3):
@@ -74,8 +79,8 @@ class ScaleSpec(SeqSpec):
             add({"kind": "mapstream-ferr-storm", "trials": 4000 if big else 200, "p": 24})
             add({"kind": "mapstream-ferr-storm", "trials": 4000 if big else 200, "p": 3})
         if "pipe-trysend-storm" in self.kinds:
-            for k, cap in [(8, 1), (6, 2), (16, 3)]:
-                add({"kind": "pipe-trysend-storm", "rounds": 3000 if big else 150, "k": k, "cap": cap})
+            for k, cap, f in [(8, 1, 1.0), (6, 2, 1.0), (12, 3, 0.4)]:
+                add({"kind": "pipe-trysend-storm", "rounds": int((3000 if big else 150) * f), "k": k, "cap": cap})
         if "pipe-idle-next" in self.kinds:
             add({"kind": "pipe-idle-next", "cap": 0, "hold_ms": hold})
             add({"kind": "pipe-idle-next", "cap": 2, "hold_ms": 40})
